@@ -47,6 +47,8 @@ func TestC11Sequential(t *testing.T) {
 		n0 := rapid.IntRange(1, 3).Draw(rt, "n0")
 		steps := rapid.IntRange(1, maxLen).Draw(rt, "steps")
 		e := genEnv(rt)
+		dress := lab.DrawDressPlan(rt) // method and headers of the traffic: no clause depends on them
+		nreq := 0
 		var hist []string
 		var viol string
 		repeated, rmTraffic, switchEjected, waited := false, false, false, false
@@ -85,7 +87,8 @@ func TestC11Sequential(t *testing.T) {
 			}
 			request := func(client string) (string, string) {
 				before := s.fn.Arrivals()
-				st, _, _, _ := lab.Serve(s.lb, lab.Request("GET", "/r", client, nil))
+				nreq++
+				st, _, _, _ := lab.Serve(s.lb, dress.At(nreq).Request("/r", client))
 				if s.fn.Arrivals() == before {
 					anyHealthy := false
 					for _, i := range model {
@@ -380,7 +383,7 @@ func TestC11Sequential(t *testing.T) {
 		if switchEjected {
 			labels = append(labels, "switch-with-ejected")
 		}
-		sub.Case(map[string]any{"strategy": strategy, "n0": n0, "health_checks": e, "history": hist}, nt, labels...)
+		sub.Case(map[string]any{"strategy": strategy, "n0": n0, "health_checks": e, "history": hist, "dress": dress}, nt, append(labels, dress.Label())...)
 		if viol != "" {
 			rt.Fatalf("strategy %s n0 %d health checks %+v history %v: %s", strategy, n0, e, hist, viol)
 		}
